@@ -212,6 +212,8 @@ def main(prop_id, argv=None):
     ap.add_argument("--no-selftest", action="store_true")
     ap.add_argument("--no-minimize", action="store_true")
     ap.add_argument("--no-evidence", action="store_true")
+    ap.add_argument("--shard")          # i/K : run only worlds with index % K == i (internal)
+    ap.add_argument("--shard-out")
     args = ap.parse_args(argv)
     mod = load(prop_id)
     seed = int(os.environ.get("VERIF_SEED", "20261002"))
@@ -237,7 +239,19 @@ def main(prop_id, argv=None):
     jobs = [{"prop": prop_id, "seed": R.derive(seed, "world", i), "runs": runs, "want_sample": i < 3}
             for i in range(nworlds)]
     deadline = t0 + budget["wall_cap"]
-    results = runner.run_jobs(jobs, world_job, wall=budget.get("world_wall", 90), deadline=deadline)
+    if args.shard:
+        import pickle
+        i, k = map(int, args.shard.split("/"))
+        mine = [j for n, j in enumerate(jobs) if n % k == i]
+        res = runner.run_jobs(mine, world_job, wall=budget.get("world_wall", 90), deadline=deadline)
+        with open(args.shard_out, "wb") as f:
+            pickle.dump(res, f)
+        return 0
+    shards = getattr(mod, "HASH_SHARDS", None)
+    if shards and len(shards) > 1:
+        results = run_sharded(prop_id, args, shards, jobs, nworlds, runs)
+    else:
+        results = runner.run_jobs(jobs, world_job, wall=budget.get("world_wall", 90), deadline=deadline)
     agg = aggregate(results)
     viols = agg.pop("violations")
     if agg["harness_errors"]:
@@ -268,6 +282,36 @@ def main(prop_id, argv=None):
           f"nontrivial_distinct={agg['distinct_nontrivial']} sim_seconds={agg['sim_seconds']:.0f} "
           f"wall={time.perf_counter() - t0:.1f}s")
     return 0
+
+
+def run_sharded(prop_id, args, shards, jobs, nworlds, runs):
+    """Ambient fault dimension for the GENERATOR process: the sweep is split over sub-processes that
+    run under different PYTHONHASHSEED values (world seeds are unchanged, so run digests must not
+    depend on the shard)."""
+    import pickle
+    import tempfile
+    k = len(shards)
+    procs = []
+    tmpd = tempfile.mkdtemp(prefix="gapic-dsim-shards-", dir=world.scratch_root())
+    for i, hs in enumerate(shards):
+        env = dict(os.environ)
+        env["PYTHONHASHSEED"] = str(hs)
+        env["VERIF_WORKERS"] = str(max(2, (os.cpu_count() or 4) // k))
+        out = os.path.join(tmpd, f"shard{i}.pkl")
+        cmd = [sys.executable, os.path.join(VERIF, "check.py"), prop_id, "--tier", args.tier, "--worlds", str(nworlds),
+               "--runs", str(runs), "--shard", f"{i}/{k}", "--shard-out", out]
+        procs.append((i, out, subprocess.Popen(cmd, env=env, cwd=VERIF, stdout=subprocess.PIPE, stderr=subprocess.PIPE, text=True)))
+    merged = {}
+    for i, out, p in procs:
+        so, se = p.communicate(timeout=3600)
+        if p.returncode != 0 or not os.path.exists(out):
+            raise RuntimeError(f"shard {i} failed: rc={p.returncode} {se[-2000:]}")
+        with open(out, "rb") as f:
+            for (job, st, pay) in pickle.load(f):
+                merged[job["seed"]] = (job, st, pay)
+    import shutil
+    shutil.rmtree(tmpd, ignore_errors=True)
+    return [merged[j["seed"]] for j in jobs if j["seed"] in merged]
 
 
 def aggregate(results):
